@@ -5,6 +5,10 @@
 -/
 import Echse.Model.Rrule
 import Echse.Spec.RuleExt
+import Echse.Lemmas.RuleExt1
+import Echse.Lemmas.RuleExt5
+import Echse.Lemmas.RuleExt7
+import Echse.Lemmas.RuleExt8
 namespace C17
 open Echse.Rrule Echse.Spec.Cal Echse.Spec.RuleExt
 
@@ -25,10 +29,10 @@ def mkShift (d : Int) (count : Nat) (back keep : Bool) : Int :=
 
 /-- `easter_get_yday` is the day of the year of Easter Sunday by the anonymous Gregorian computus, every year 1901-2099 -/
 theorem easter_is_computus (y : Nat) (h : YearOk y) : (easterGetYday y : Int) = easterDay y - days y 1 1 + 1 := by
-  sorry
+  exact Echse.RuleExt.easter_yday y h.1 h.2
 
 theorem easter_is_sunday (y : Nat) (h : YearOk y) : wdayOf (easterDay y) = 7 := by
-  sorry
+  exact Echse.RuleExt.easter_wday y h.1 h.2
 
 /-- BYEASTER=o selects the day o days after (before) Easter Sunday — as long as that day lies in the same year -/
 theorem byeaster_selects (y : Nat) (o : Int) (h : YearOk y) (ho : -366 ≤ o ∧ o ≤ 366)
@@ -45,7 +49,7 @@ theorem byeaster_outside_year_dropped (y : Nat) (o : Int) (h : YearOk y) (ho : -
 /-- several offsets select the union of what each selects -/
 theorem byeaster_many (y : Nat) (offs : List Int) (c : Nat) (h : YearOk y) (ho : ∀ o ∈ offs, -366 ≤ o ∧ o ≤ 366) :
     c ∈ fillYlyEastr [] y offs [] [] 0 ↔ ∃ o ∈ offs, fillYlyEastr [] y [o] [] [] 0 = [c] := by
-  sorry
+  exact Echse.RuleExt.byeaster_many y offs c
 
 /-! ### SHIFT=N (calendar days) -/
 
@@ -67,7 +71,7 @@ theorem shift_days_year (y c : Nat) (n : Int) (hy : 1902 ≤ y ∧ y ≤ 2098) (
 filed under "previous year" -/
 theorem shift_366_reaches_two_years_back :
     shift { same := [1] } 2022 (-366 * 65536) = { prev := [packCand 12 31] } ∧ days 2020 12 31 = days 2022 1 1 - 366 := by
-  sorry
+  decide
 
 /-! ### SHIFT=NB (business days) -/
 
@@ -91,34 +95,34 @@ theorem shift_both_one (y c count : Nat) (n : Int) (back keep : Bool) (hy : 1903
 theorem shift_set (y : Nat) (cs : List Nat) (sh : Int) (k c' : Nat) :
     c' ∈ (shift { same := cs.foldl assC [] } y sh).get k ↔
       (sh = 0 ∧ k = 0 ∧ c' ∈ cs) ∨ (sh ≠ 0 ∧ ∃ c ∈ cs, c' ∈ (shift { same := [c] } y sh).get k) := by
-  sorry
+  exact Echse.RuleExt.shift_set y cs sh k c'
 
 /-! ### SHIFT text -/
 
 theorem snarf_days (n : Int) (hn : -366 ≤ n ∧ n ≤ 366) : snarfShift (toString n) = n * 65536 := by
-  sorry
+  exact Echse.RuleExt.snarf_days n hn
 
 theorem snarf_bdays (n : Int) (hn : n ≠ 0 ∧ -366 ≤ n ∧ n ≤ 366) :
     snarfShift (toString n ++ "B") = mkShift 0 n.natAbs (n < 0) false := by
-  sorry
+  exact Echse.RuleExt.snarf_bdays n hn
 
 theorem snarf_bdays_keep_fwd (n : Nat) (hn : 1 ≤ n ∧ n ≤ 366) :
     snarfShift (toString n ++ "B+") = mkShift 0 n false true := by
-  sorry
+  exact Echse.RuleExt.snarf_bdays_keep_fwd n hn
 
 theorem snarf_bdays_keep_back (n : Nat) (hn : 1 ≤ n ∧ n ≤ 366) :
     snarfShift ("-" ++ toString n ++ "B-") = mkShift 0 n true true := by
-  sorry
+  exact Echse.RuleExt.snarf_bdays_keep_back n hn
 
 /-- zero business days: `0B`, `0B+` go forward to Monday, `-0B`, `0B-` back to Friday -/
 theorem snarf_zero_forms :
     snarfShift "0B" = mkShift 0 0 false true ∧ snarfShift "0B+" = mkShift 0 0 false true ∧
     snarfShift "-0B" = mkShift 0 0 true true ∧ snarfShift "0B-" = mkShift 0 0 true true := by
-  sorry
+  exact Echse.RuleExt.snarf_zero_forms
 
 theorem snarf_both (d n : Int) (hd : d ≠ 0 ∧ -366 ≤ d ∧ d ≤ 366) (hn : -366 ≤ n ∧ n ≤ 366) :
     snarfShift (toString d ++ "," ++ toString n ++ "B") = mkShift d n.natAbs (n < 0) false := by
-  sorry
+  exact Echse.RuleExt.snarf_both d n hd hn
 
 /-! ### the premises are satisfiable -/
 example : YearOk 2024 ∧ ValidCand 2024 (packCand 2 29) ∧ candDay 2024 (packCand 2 29) = days 2024 2 29 := by
